@@ -637,7 +637,9 @@ pub fn stiff(args: &[String]) {
         let atol = rtol * 1e-2;
         let user_jac = rng.chance(0.5);
         let back = rng.chance(0.25);
-        let xend = rng.range(1.0, 4.0) * if back { -1.0 } else { 1.0 };
+        // the origin of the time axis must not matter: a tiny automatic first step trips the stagnation guard sooner at |x0| > 0
+        let x0 = [0.0, 0.0, 10.0, -7.0, 1000.0][case % 5];
+        let xend = x0 + rng.range(1.0, 4.0) * if back { -1.0 } else { 1.0 };
         // the same problem at stiffness ratios 1e2 .. 1e10: Success, error at the tolerance scale, step count bounded
         let mut steps = vec![];
         let mut why = String::new();
@@ -646,9 +648,9 @@ pub fn stiff(args: &[String]) {
         for ex in [2.0, 4.0, 6.0, 8.0, 10.0] {
             let lam: Vec<f64> = pattern.iter().enumerate().map(|(i, u)| if i == 0 { 10f64.powf(ex) } else { 10f64.powf(ex * u) }).collect();
             let p = PR { lam, sign: if back { -1.0 } else { 1.0 }, user_jac };
-            let y0: Vec<f64> = (0..n).map(|i| (i as f64).cos()).collect();
+            let y0: Vec<f64> = (0..n).map(|i| (x0 + i as f64).cos()).collect();
             let o = Options::builder().method(method).rtol(rtol).atol(atol).build();
-            match catch_unwind(AssertUnwindSafe(|| solve_ivp(&p, 0.0, xend, &y0, o))) {
+            match catch_unwind(AssertUnwindSafe(|| solve_ivp(&p, x0, xend, &y0, o))) {
                 Ok(Ok(s)) => {
                     steps.push(s.nstep);
                     if s.status != Status::Success && why.is_empty() { why = format!("stiffness 1e{}: status {:?}", ex, s.status); key = "c14-status"; }
@@ -666,7 +668,7 @@ pub fn stiff(args: &[String]) {
             let (mn, mx) = (*steps.iter().min().unwrap(), *steps.iter().max().unwrap());
             if mx > 3 * mn + 60 { why = format!("step counts grow with the stiffness ratio: {:?} for 1e2..1e10", steps); key = "c14-steps"; }
         }
-        r14(case, "prothero-robinson", method, key, &why, &format!("\"n\":{},\"user_jac\":{},\"rtol\":{},\"back\":{},\"steps\":{:?},", n, user_jac, jnum(rtol), back, steps));
+        r14(case, "prothero-robinson", method, key, &why, &format!("\"n\":{},\"user_jac\":{},\"rtol\":{},\"x0\":{},\"back\":{},\"steps\":{:?},", n, user_jac, jnum(rtol), x0, back, steps));
     }
     // Robertson and Van der Pol
     // (Van der Pol over three periods' worth of fast transitions, at loose and moderate tolerances: many recovered Newton failures)
